@@ -61,7 +61,11 @@
    specification accepts a walk iff it is an outcome of some reading, and an
    error iff under some reading the path has no walk at all (PathMayFail); the
    strict answer is always acceptable (checked by TLC in MC_Groups:
-   StrictInRelaxed).                                                          *)
+   StrictInRelaxed).  A reading is also held for the whole DOCUMENT: the
+   answers to all groups of one document must be explained by one and the same
+   reading (an implementation that travels an internal alignment against its
+   written order in `x+ b+` cannot refuse `x+ y+` on the ground that the
+   written order is binding) -- TraceGroups, clause C17.reading.              *)
 EXTENDS Gfa
 
 -----------------------------------------------------------------------------
@@ -201,6 +205,8 @@ WalksIn(B) == {r.w : r \in {x \in UNION {B[R] : R \in DOMAIN B} : x.ok}}
 \* first item that is an internal alignment followed by a path that starts at one
 \* of its two segments.)
 MayFailIn(B) == \E R \in DOMAIN B : \A r \in B[R] : ~r.ok
+\* the same under ONE reading: a reading is held for the whole document
+WalksUnder(B, R) == {r.w : r \in {x \in B[R] : x.ok}}
 PathWalks(D, o) == WalksIn(ByReading(D, o))
 PathMayFail(D, o) == MayFailIn(ByReading(D, o))
 
@@ -261,6 +267,10 @@ InducedSet(D, u) ==
 SetMayFail(D, u) ==
   \/ Unresolved(D, u) \/ BadSetItem(D, u) \/ SetInPath(D, u) \/ CyclicSets(D, u)
   \/ \E p \in PathsReached(D, u) : PathMayFail(D, p)
+\* the same under the one reading R
+SetMayFailUnder(D, u, R) ==
+  \/ Unresolved(D, u) \/ BadSetItem(D, u) \/ SetInPath(D, u) \/ CyclicSets(D, u)
+  \/ \E p \in PathsReached(D, u) : \A r \in PathOutcomes(D, R, p) : ~r.ok
 \* a set is an acceptable answer: the segments mentioned and all edges between them
 SetMayAnswer(D, u) == ~BadSetItem(D, u) /\ ~SetInPath(D, u)
 =============================================================================
